@@ -144,7 +144,10 @@ class CCodeMapper(SimplifyingSortingStringifyMapper):
             if is_zero(expr.exponent):
                 return "1"
             elif is_zero(expr.exponent - 1):
-                return self.rec(expr.base, enclosing_prec)
+                # The base stands where a power stood and must keep its
+                # grouping ('z / (x * y)', not 'z / x * y').
+                from pymbolic.mapper.stringifier import PREC_POWER
+                return self.rec(expr.base, max(enclosing_prec, PREC_POWER))
             elif is_zero(expr.exponent - 2):
                 # The square is emitted as a product, but it stands where a
                 # power stood: next to '/', '%' or '*' it must stay together
